@@ -33,6 +33,10 @@ type Req struct {
 	Status    int    `json:"status"`
 	Chunked   bool   `json:"chunked"`
 	AbandonMs int    `json:"abandon_after_ms,omitempty"` // >0: the client gives up (closes its connection) after this long
+	// AbandonMidBody (with AbandonMs > 0): instead of after a fixed time the client gives up once it has received the first
+	// bytes of the response body; the backend streams the rest of a large chunked body (and its trailers) after a pause.
+	AbandonMidBody bool `json:"abandon_mid_body,omitempty"`
+	MidBodyTail    int  `json:"mid_body_tail_bytes,omitempty"`
 }
 
 type Case struct {
@@ -50,7 +54,7 @@ func genCase(t *rapid.T) Case {
 		maxK = 256
 	}
 	k := rapid.IntRange(2, maxK).Draw(t, "k")
-	big := 0
+	big, midBody := 0, 0
 	abandoning := rapid.IntRange(0, 2).Draw(t, "abandoning") == 0
 	for i := 0; i < k; i++ {
 		r := Req{
@@ -68,6 +72,14 @@ func genCase(t *rapid.T) Case {
 			// a client that gives up while its request is somewhere on its way: listed, fetched, at the backend or being answered
 			r.AbandonMs = rapid.SampledFrom([]int{1, 10, 30, 100, 200}).Draw(t, "abandonMs")
 			r.LatencyMs = rapid.SampledFrom([]int{20, 100, 300, 300}).Draw(t, "abandonLatency")
+			if midBody < 3 && rapid.IntRange(0, 2).Draw(t, "midBody") == 0 {
+				midBody++
+				r.AbandonMidBody, r.Chunked, r.LatencyMs = true, true, 0
+				// the backend sends all but the last MidBodyTail bytes, pauses, and then sends the tail and the trailers
+				r.RespSize = rapid.SampledFrom([]int{16384, 8192, 40000, 300000}).Draw(t, "midBodyFirst")
+				r.MidBodyTail = rapid.SampledFrom([]int{6000, 3000, 20000, 1}).Draw(t, "midBodyTail")
+				r.RespSize += r.MidBodyTail
+			}
 		}
 		if big < 2 && rapid.IntRange(0, 30).Draw(t, "mib") == 0 {
 			r.RespSize = 1 << 20
@@ -151,6 +163,21 @@ func runOnce(t vh.TB, c *Case, mult int) vh.Outcome {
 			body := append([]byte(tok+"|"+n+"|"), vh.Payload("resp-"+tok, r.RespSize)...)
 			var b bytes.Buffer
 			fmt.Fprintf(&b, "HTTP/1.1 %d X\r\nX-Echo-Token: %s\r\nX-Nonce: %s\r\nSet-Cookie: tok=%s\r\n", r.Status, tok, n, tok)
+			if r.AbandonMidBody {
+				// the head and the first kilobyte now; the rest and the trailers after the client has had time to leave
+				b.WriteString("Trailer: X-Trailer-Token\r\nTransfer-Encoding: chunked\r\n\r\n")
+				head := len(body) - r.MidBodyTail
+				if head < 1 {
+					head = 1
+				}
+				enc := vh.ChunkedEncode(body, []int{head}, []vh.HeaderField{{Name: "X-Trailer-Token", Value: tok}, {Name: "X-Trailer-B", Value: n}})
+				first := len(fmt.Sprintf("%x\r\n", head)) + head + 2
+				b.Write(enc[:first])
+				conn.Write(b.Bytes())
+				time.Sleep(150 * time.Millisecond)
+				conn.Write(enc[first:])
+				return true
+			}
 			if r.Chunked {
 				b.WriteString("Trailer: X-Trailer-Token\r\nTransfer-Encoding: chunked\r\n\r\n")
 				b.Write(vh.ChunkedEncode(body, []int{1, 4096}, []vh.HeaderField{{Name: "X-Trailer-Token", Value: tok}}))
@@ -187,7 +214,21 @@ func runOnce(t vh.TB, c *Case, mult int) vh.Outcome {
 			if r.AbandonMs > 0 {
 				if c, err := net.DialTimeout("tcp", e.Stack.ProxyAddr, 5*time.Second); err == nil {
 					c.Write(b.Bytes())
-					time.Sleep(time.Duration(r.AbandonMs) * time.Millisecond)
+					if r.AbandonMidBody {
+						// leave as soon as the first bytes of the body are there
+						c.SetReadDeadline(time.Now().Add(20 * time.Second))
+						var got []byte
+						buf := make([]byte, 4096)
+						for {
+							n, rerr := c.Read(buf)
+							got = append(got, buf[:n]...)
+							if i := bytes.Index(got, []byte("\r\n\r\n")); (i >= 0 && len(got) > i+4+8) || rerr != nil {
+								break
+							}
+						}
+					} else {
+						time.Sleep(time.Duration(r.AbandonMs) * time.Millisecond)
+					}
 					c.Close()
 				}
 				return
@@ -215,6 +256,12 @@ func runOnce(t vh.TB, c *Case, mult int) vh.Outcome {
 	for _, r := range c.Reqs {
 		if r.AbandonMs > 0 {
 			o.Classes = append(o.Classes, "some-clients-give-up")
+			break
+		}
+	}
+	for _, r := range c.Reqs {
+		if r.AbandonMidBody {
+			o.Classes = append(o.Classes, "client-leaves-while-its-response-is-streamed")
 			break
 		}
 	}
